@@ -22,16 +22,7 @@ func (fr *Frame) execCall(st *State, in *ssa.Call) {
 // function on this path (spec builtins last(f), last1(f)).
 func (fr *Frame) rememberCall(st *State, c *ssa.CallCommon, res []*Val) {
 	x := fr.x
-	name := ""
-	if c.IsInvoke() {
-		name = c.Method.Name()
-	} else if f := c.StaticCallee(); f != nil {
-		name = f.Name()
-	} else if u, ok := c.Value.(*ssa.UnOp); ok {
-		if g, ok := u.X.(*ssa.Global); ok {
-			name = g.Name()
-		}
-	}
+	name := lastCallName(c)
 	if name == "" || len(res) == 0 {
 		return
 	}
@@ -51,6 +42,20 @@ func (fr *Frame) rememberCall(st *State, c *ssa.CallCommon, res []*Val) {
 		}
 	}
 	x.lastCalls[name] = cells
+}
+
+// lastCallName: the key under which last(f) finds the results of a call.
+func lastCallName(c *ssa.CallCommon) string {
+	if c.IsInvoke() {
+		return c.Method.Name()
+	} else if f := c.StaticCallee(); f != nil {
+		return f.Name()
+	} else if u, ok := c.Value.(*ssa.UnOp); ok {
+		if g, ok := u.X.(*ssa.Global); ok {
+			return g.Name()
+		}
+	}
+	return ""
 }
 
 func (fr *Frame) setResults(in *ssa.Call, res []*Val) {
@@ -569,6 +574,29 @@ func (fr *Frame) callWithContract(st *State, c *FuncContract, fn *ssa.Function, 
 			continue
 		}
 		x.vc.assume(tImp(st.pc, g))
+	}
+	if c.Sticky && len(res) == 1 && len(args) > 0 && len(args[0].L) == 1 && len(res[0].L) == 1 {
+		// monotone observer: the previous call on the same receiver (the most
+		// recent one on this path) already answered non-zero => so does this one
+		if x.stickyCells == nil {
+			x.stickyCells = map[string][2]*Cell{}
+		}
+		cs, ok := x.stickyCells[name]
+		if !ok {
+			cs = [2]*Cell{x.newCell("last_stickyrecv_"+short, args[0].Ty, token.NoPos), x.newCell("last_stickyres_"+short, res[0].Ty, token.NoPos)}
+			x.stickyCells[name] = cs
+		}
+		zero := "0"
+		if isBool(res[0].Ty) {
+			zero = "false"
+		}
+		if pr, ok := st.cells[cs[0]]; ok {
+			if pv, ok := st.cells[cs[1]]; ok {
+				x.vc.assume(tImp(st.pc, tImp(tAnd(tEq(pr.L[0], args[0].L[0]), tNot(tEq(pv.L[0], zero))), tNot(tEq(res[0].L[0], zero)))))
+			}
+		}
+		st.cells[cs[0]] = &Val{Ty: cs[0].ty, L: args[0].L}
+		st.cells[cs[1]] = &Val{Ty: cs[1].ty, L: res[0].L}
 	}
 	if len(c.Effects) > 0 {
 		st.events = tAdd(st.events, "1")
